@@ -27,6 +27,7 @@ def check(c: Check):
         'consume; every handler of it converts to the instruction syntax error). Decides clauses a-d of DESIGN.md '
         'C09; not token boundaries, here-document bodies or positions.')
     clause_j(c)
+    clause_k(c)
     clause_a(c)
     clause_b(c)
     clause_c(c)
@@ -845,3 +846,70 @@ def clause_j(c: Check):
         c.expect(scan == preds, 'C09-j', 'name-alphabet/predicates',
                  'the reference scanner uses %s, is_symbol_name uses %s' % (sorted(scan), sorted(preds)), m.relpath)
     c.require(scan or n_re, 'C09-j: neither a character predicate nor a regular expression found in the reference scanner')
+
+
+# ---------------------------------------------------------------- k
+def clause_k(c: Check):
+    """EVAL `:> TEXT-UNTIL-END-OF-LINE` (and every other "rest of the line is one string" argument): the string is what
+    ONE reading of the rest of the current line gives - optionally stripped - and nothing else: no second reading,
+    no look at the following lines, no piece cut off.  Both helpers are evaluated with a symbolic token parser for
+    strip_space true / false; the text handed to the string constructor must be the result of the single reading."""
+    ix, fo = c.ix, c.fo
+    PS = 'exactly_lib.impls.types.string_.parse_string'
+    READS = ('consume_remaining_part_of_current_line_as_string',
+             'consume_current_line_as_string_of_remaining_part_of_current_line')
+    n = 0
+    for fname, want_read in (('parse_rest_of_line_as_single_string', READS[0]),
+                             ('parse_rest_of_line_as_single_string_and_consume_line', READS[1])):
+        f = ix.func(PS + ':' + fname)
+        users = util.call_sites_of(ix, f)
+        for strip in (True, False):
+            class H(Hooks):
+                loop_bound = 2
+
+                def inline(self, fd, st):
+                    return fd.module is f.module and fd is not f and fd.name.startswith('_')
+
+            tp = Sym('token-parser', nullness=False, truth=True)
+            pp = f.positional_params()
+            args = {pp[0].arg: tp}
+            if len(pp) > 1:
+                args[pp[1].arg] = K(strip)
+            for p in util.func_paths(ix, fo, f, H(), args=args):
+                n += 1
+                c.count()
+                key = '%s/strip_space=%s' % (fname, strip)
+                def receiver_of(ev):
+                    cv = ev.data.get('callee_val')
+                    if ev.data.get('recv') is not None:
+                        return ev.data['recv']
+                    return cv.origin[1] if isinstance(cv, Sym) and cv.origin and cv.origin[0] == 'attr' else None
+
+                reads = [e for e in p.calls() if isinstance(e.node.func, ast.Attribute)
+                         and receiver_of(e) is not None and util.root_sym(receiver_of(e)) is tp]
+                names = [e.node.func.attr for e in reads]
+                ok = names == [want_read]
+                text = None
+                if p.kind == 'return':
+                    o = util.root_sym(p.val).origin if isinstance(p.val, Sym) else None
+                    if o and o[0] == 'call' and o[2]:
+                        text = o[2][0]
+
+                def is_reading(v):
+                    r = util.root_sym(v) if isinstance(v, Sym) else None
+                    return r is not None and r.origin and r.origin[0] == 'call' and str(r.origin[1]).endswith(want_read)
+
+                stripped = False
+                t = text
+                r = util.root_sym(t) if isinstance(t, Sym) else None
+                if r is not None and r.origin and r.origin[0] == 'call' and str(r.origin[1]).endswith('str.strip') \
+                        and not r.origin[2] and len(r.origin) > 5 and isinstance(r.origin[5], int):
+                    stripped = True
+                    t = receiver_of(p.trace[r.origin[5]])
+                ok = ok and (is_reading(t) if t is not None else False) and stripped == strip
+                c.expect(ok, 'C09-k', key,
+                         'the text of a rest-of-line string is %s after the readings %s (expected: the one reading `%s`%s)' % (
+                             util.describe(text) if text is not None else p.kind, names, want_read,
+                             ', stripped' if strip else ''), f.loc())
+        c.floor('C09-k', 'users of ' + fname, len(users), 1)
+    c.floor('C09-k', 'paths of the rest-of-line string helpers', n, 4)
